@@ -364,3 +364,8 @@ def _writer_key_ok(facts, body, term, key):
                 if any(x[0] == "field" and x[2] == "stage" for x in walk(k)):
                     return True
     return False
+
+
+def thorough(res):
+    from .. import engine
+    engine.sensitivity("C10", res)
